@@ -110,16 +110,15 @@ Definition idem_bin_ok (d : t2d) (ks : list string) : bool :=
   Bool.eqb (autough2 X) (autough2 d) && strs_eqb (map b_name (blocks X)) (map b_name (blocks d)) &&
   strs_eqb (filter (fun k => negb (in_str k mesh_kws)) (update_sections X)) (map s2l ks) &&
   strs_eqb (map r_name (rocks d2)) (map r_name (rocks d)).
-Theorem write_idem_binary d ks d' fs RA RB :
-  write_files (mk_wcfg 2 None None) d = Ok (d', fs) -> write_bin d = Ok (RA, RB) ->
-  update_sections d = sections d -> main_secs d = map s2l ks -> xprec d = [] ->
+(** the second write with the binary pair as a program (no hypothesis on the stability of the values) *)
+Theorem bin_second_write d ks :
   chain_ok d ks (start_state d) = true -> idem_bin_ok d ks = true ->
-  Forall (istable T0) (prog_file d ks) ->
   let X := bin_state d (reread d ks) in
-  exists d'' fs', write_files (mk_wcfg 2 None None) X = Ok (d'', fs') /\ Forall2 lpad (f_main fs) (f_main fs') /\
-    f_mesh fs' = None /\ f_pdat fs' = None /\ write_bin X = Ok (RA, RB).
+  prog_file X ks = map citem0 (prog_file d ks) /\
+  write_files (mk_wcfg 2 None None) X = (do ls <- render0 (prog_file X ks); Ok (set_sections X (update_sections X), mk_files ls None None)) /\
+  map r_name (rocks (reread d ks)) = map r_name (rocks d).
 Proof.
-  intros W WB US SK XP CH ID ST1 X. set (d2 := reread d ks) in *.
+  intros CH ID X. set (d2 := reread d ks) in *.
   unfold idem_bin_ok in ID. cbv zeta in ID. fold d2 in ID. fold X in ID.
   apply andb_prop in ID as [ID RN]. apply andb_prop in ID as [ID MSX]. apply andb_prop in ID as [ID BN]. apply andb_prop in ID as [ID AX].
   apply andb_prop in ID as [ID NM]. apply andb_prop in ID as [ICH ND]. apply all_distinct_nodup in ND. apply Bool.eqb_prop in AX.
@@ -127,11 +126,6 @@ Proof.
   destruct (idem_chain_all d ks _ ICH) as [COV WFW].
   destruct (reread_facts d ks) as [XD [SD ED]]. fold d2 in XD, SD, ED.
   destruct (bin_state_facts d d2) as [XX0 [MT ME]]. fold X in XX0, MT, ME. assert (XX : xprec X = []) by (rewrite XX0; exact XD).
-  destruct (write_files_bin_shape d d' fs W US XP) as [all [WS EF]]. subst fs. cbn [f_main f_mesh f_pdat]. rewrite SK in WS.
-  rewrite (write_sections_prog d ks COV WFW) in WS.
-  assert (W1 : render0 (prog_file d ks) = Ok ((strip (title d) +++ [nl]) :: all ++ [end_keyword d +++ [nl]])%list).
-  { unfold prog_file. rewrite render_cons. cbn [render1 bind]. rewrite render_app, WS. reflexivity. }
-  destruct (render_rewrite T0 _ _ W1 ST1) as [ls' [R1 F1]].
   assert (SAME : forall k, In k ks -> exists pre post, ks = (pre ++ k :: post)%list /\ same_for k X (push k (supd k d (final d pre (start_state d))))).
   { intros k IK. destruct (in_split k ks IK) as [pre0 [post0 E0]].
     assert (IC0 := ICH). rewrite E0 in IC0. apply idem_chain_split in IC0 as [IX _].
@@ -144,9 +138,53 @@ Proof.
     destruct (title_final d ks (start_state d)) as [TT _].
     assert (T1 : title d2 = strip (title d)) by (unfold d2, reread; transitivity (title (final d ks (start_state d))); [destruct (final d ks (start_state d)); reflexivity|rewrite TT; reflexivity]).
     rewrite T1. unfold strip at 1. rewrite strip_by_idem. fold (strip (title d)). rewrite Q. reflexivity. }
-  rewrite (write_files_bin_eq X XX), MSX, (write_sections_prog X ks COV WX).
-  rewrite <- PF in R1. unfold prog_file in R1. rewrite render_cons in R1. cbn [render1 bind] in R1. rewrite render_app in R1.
-  destruct (render0 (flat_map (prog_sec X) ks)) as [allx|]; cbn [bind] in *; [|discriminate]. unfold Prog.render in R1. cbn [mapM render1 bind] in R1. inv_ok R1.
-  eexists _, _. split; [reflexivity|]. cbn [f_main f_mesh f_pdat]. repeat split; try assumption.
-  apply write_bin_again; assumption.
+  split; [exact PF|]. split; [|exact RN].
+  rewrite (write_files_bin_eq X XX), MSX, (write_sections_prog X ks COV WX), render_prog_file.
+  destruct (render0 (flat_map (prog_sec X) ks)) as [all|]; reflexivity.
+Qed.
+Lemma idem_bin_chain d ks : idem_bin_ok d ks = true -> idem_chain d ks (start_state d) = true.
+Proof. unfold idem_bin_ok. cbv zeta. intro H. do 6 (apply andb_prop in H as [H _]). exact H. Qed.
+Lemma bin_first_write d ks d' fs : write_files (mk_wcfg 2 None None) d = Ok (d', fs) ->
+  update_sections d = sections d -> main_secs d = map s2l ks -> xprec d = [] -> idem_chain d ks (start_state d) = true ->
+  exists ls, render0 (prog_file d ks) = Ok ls /\ fs = mk_files ls None None.
+Proof.
+  intros W US SK XP ICH. destruct (idem_chain_all d ks _ ICH) as [COV WFW].
+  destruct (write_files_bin_shape d d' fs W US XP) as [all [WS EF]]. rewrite SK in WS. rewrite (write_sections_prog d ks COV WFW) in WS.
+  exists ((strip (title d) +++ [nl]) :: all ++ [end_keyword d +++ [nl]])%list. split; [rewrite render_prog_file, WS; reflexivity|exact EF].
+Qed.
+Theorem write_idem_binary d ks d' fs RA RB :
+  write_files (mk_wcfg 2 None None) d = Ok (d', fs) -> write_bin d = Ok (RA, RB) ->
+  update_sections d = sections d -> main_secs d = map s2l ks -> xprec d = [] ->
+  chain_ok d ks (start_state d) = true -> idem_bin_ok d ks = true ->
+  Forall (istable T0) (prog_file d ks) ->
+  let X := bin_state d (reread d ks) in
+  exists d'' fs', write_files (mk_wcfg 2 None None) X = Ok (d'', fs') /\ Forall2 lpad (f_main fs) (f_main fs') /\
+    f_mesh fs' = None /\ f_pdat fs' = None /\ write_bin X = Ok (RA, RB).
+Proof.
+  intros W WB US SK XP CH ID ST1 X.
+  destruct (bin_first_write d ks d' fs W US SK XP (idem_bin_chain d ks ID)) as [ls [R1 EF]]. subst fs.
+  destruct (render_rewrite T0 _ _ R1 ST1) as [ls' [R1' F1]].
+  destruct (bin_second_write d ks CH ID) as [PF [WX RN]]. fold X in PF, WX. rewrite PF, R1' in WX. cbn [bind] in WX.
+  eexists _, _. split; [exact WX|]. cbn [f_main f_mesh f_pdat]. repeat split; try assumption. apply write_bin_again; assumption.
+Qed.
+(** ... and from then on byte for byte (main file) and record for record (the pair) *)
+Theorem write_fixpoint_binary d ks d' fs RA RB :
+  write_files (mk_wcfg 2 None None) d = Ok (d', fs) -> write_bin d = Ok (RA, RB) ->
+  update_sections d = sections d -> main_secs d = map s2l ks -> xprec d = [] ->
+  chain_ok d ks (start_state d) = true -> idem_bin_ok d ks = true ->
+  Forall (istable T0) (prog_file d ks) ->
+  let X := bin_state d (reread d ks) in let Y := bin_state X (reread X ks) in
+  chain_ok X ks (start_state X) = true -> idem_bin_ok X ks = true ->
+  exists d'' fs' d3 fs'', write_files (mk_wcfg 2 None None) X = Ok (d'', fs') /\ write_files (mk_wcfg 2 None None) Y = Ok (d3, fs'') /\
+    fs'' = fs' /\ write_bin X = Ok (RA, RB) /\ write_bin Y = Ok (RA, RB).
+Proof.
+  intros W WB US SK XP CH ID ST1 X Y CHX IDX.
+  destruct (bin_first_write d ks d' fs W US SK XP (idem_bin_chain d ks ID)) as [ls [R1 EF]].
+  destruct (render_rewrite T0 _ _ R1 ST1) as [ls' [R1' F1]].
+  destruct (bin_second_write d ks CH ID) as [PF [WX RN]]. fold X in PF, WX.
+  destruct (bin_second_write X ks CHX IDX) as [PF2 [WY RN2]]. fold Y in PF2, WY.
+  rewrite PF, R1' in WX. cbn [bind] in WX.
+  rewrite PF2, PF, (render_fixpoint T0 _ _ R1 ST1), R1' in WY. cbn [bind] in WY.
+  assert (WBX : write_bin X = Ok (RA, RB)) by (apply write_bin_again; assumption).
+  eexists _, _, _, _. split; [exact WX|]. split; [exact WY|]. split; [reflexivity|]. split; [exact WBX|]. apply write_bin_again; assumption.
 Qed.
